@@ -29,13 +29,15 @@ DESIGNATOR_KINDS = ["vendor", "t10", "eui8", "eui12", "eui16", "naa2", "naa3", "
 
 def gen_struct(st, rng, skip=()):
     v = {}
+    # a record all of whose fields are zero is a record like any other (the empty element at address 0, LUN 0, an extent at LBA 0)
+    zero = rng.random() < 0.05
     for name, byte, a, w in st.fields:
         if name in skip:
             continue
         if a == "b":
-            v[name] = gen.byte_string(rng, w)
+            v[name] = bytes(w) if zero else gen.byte_string(rng, w)
         else:
-            v[name] = gen.rand_value(rng, w)
+            v[name] = 0 if zero else gen.rand_value(rng, w)
     return v
 
 
@@ -1072,10 +1074,13 @@ class ReadElementStatusF(Format):
                  "_tail": rng.choice([0, 4, 4, 8]), "element_descriptors": []}
             for _ in range(big or rng.choice([0, 1, 2, 4])):
                 d = gen_struct(self.BYTYPE[t], rng)
+                empty = rng.random() < 0.12  # an empty element: nothing set, no tag (zero filled)
+                if empty:
+                    d = {k: (bytes(len(x)) if isinstance(x, (bytes, bytearray)) else 0) for k, x in d.items()}
                 if p["pvoltag"]:
-                    d["primary_volume_tag"] = gen.byte_string(rng, 36, "text")
+                    d["primary_volume_tag"] = bytes(36) if empty else gen.byte_string(rng, 36, "text")
                 if p["avoltag"]:
-                    d["alternate_volume_tag"] = gen.byte_string(rng, 36, "text")
+                    d["alternate_volume_tag"] = bytes(36) if empty else gen.byte_string(rng, 36, "text")
                 p["element_descriptors"].append(d)
             v["num_elements"] += len(p["element_descriptors"])
             v["element_status_pages"].append(p)
